@@ -290,4 +290,6 @@ func init() {
 	})
 	registerKeystoreOps()
 	registerTranslatorOps()
+	registerTLSIdentityOps()
+	registerServerOps()
 }
